@@ -348,7 +348,9 @@ pub fn generate(prop: &str, rng: &mut Rng, skip_fast: bool, run_index: u64) -> (
     }
     // which scenario
     let scen = match prop {
-        "C17" => rng.weighted(&[4, 5, 1]),
+        // (C17: the pure mem / validator functions too - their results are
+        // fully specified, so every build must give the same ones)
+        "C17" => rng.weighted(&[8, 10, 2, 1]),
         "C02" | "C10" | "C19" => 0,
         "C04" | "C12" => 1,
         "C05" => rng.weighted(&[7, 0, 3]),
@@ -1170,7 +1172,7 @@ fn exec_mem(prop: &str, spec: &MemSpec, source: &mut dyn OpSource) -> RunOut {
 }
 
 fn exec_memfn(spec: &crate::memfn::MemFnSpec) -> RunOut {
-    let viols = crate::memfn::execute(spec);
+    let (viols, transcript) = crate::memfn::execute(spec);
     let mut sig = crate::rng::Digest::new();
     sig.u64(crate::props::scenario_id(&spec.func));
     sig.u64(spec.src.len() as u64);
@@ -1182,7 +1184,7 @@ fn exec_memfn(spec: &crate::memfn::MemFnSpec) -> RunOut {
         faults: Faults { placement: (spec.src_off != 0 || spec.dst_off != 0) as u64, ..Faults::default() },
         probes: vec![("mem_function_call", 1)],
         sig: sig.finish(),
-        transcript: sig.finish(),
+        transcript,
         nontrivial: false,
         aborted: None,
         finished: true,
